@@ -21,7 +21,7 @@ fi
 cd $H/harness
 CARGO_NET_OFFLINE=true CARGO_TARGET_DIR=$H/target cargo build --offline --profile verif -p gxv 2>&1 | grep -E "^error" -A10 | head -30
 mkdir -p $H/replays
-GXV_REPLAY_DIR=$H/replays GXV_BUDGET_S=$BUDGET $H/target/verif/gxv $ID --tier quick --seed $SEED --out $H/$ID.json 2>$H/$ID.err
+GXV_REPO_PREFIX=/tmp/mutrepo/ GXV_REPLAY_DIR=$H/replays GXV_BUDGET_S=$BUDGET $H/target/verif/gxv $ID --tier quick --seed $SEED --out $H/$ID.json 2>$H/$ID.err
 python3 - <<PY
 import json
 d=json.load(open("$H/$ID.json"))
